@@ -532,10 +532,19 @@ def install(ex):
         elif t == 'gauge_total_charge':
             kw = {}
             qcls = 'default'
+            if 'qtotal_rel' in op:
+                tot = psi.get_total_charge()
+                if op['qtotal_rel'] == 'total':
+                    op = dict(op, qtotal=[int(x) for x in tot])
+                else:
+                    rel = [list(x) for x in op['qtotal_rel']]
+                    lastq = [int(t) - sum(r_[c_] for r_ in rel) for c_, t in enumerate(tot)]
+                    op = dict(op, qtotal=rel + [lastq])
             if 'qtotal' in op:
                 q = op['qtotal']
                 kw['qtotal'] = q
                 qcls = 'None' if q is None else ('list' if q and isinstance(q[0], list) else 'charge')
+                ex_['qtotal_arg'] = q
             vL, vR = psi._B[0].get_leg('vL'), psi._B[-1].get_leg('vR')
             lcls = {'vL_leg': 'default', 'vR_leg': 'default'}
             for nm, leg in (('vL_leg', vL), ('vR_leg', vR)):
